@@ -188,6 +188,32 @@ theorem C09_window_unaligned {α : Type} (c : Cfg) (hp : 0 < c.period) (buffer :
     · have : L = 0 := by omega
       subst this; simp; omega
 
+/-- Datetime queries OUTSIDE the stored span (a corollary of `C09_window_unaligned`, spelled out): a range whose start
+falls into a slot after the newest one, or whose end falls into a slot not after the oldest valid one, or whose bounds
+are reversed / in one slot, is empty — whatever else is stored, aligned or not, however far away. -/
+theorem C09_window_outside_span {α : Type} (c : Cfg) (hp : 0 < c.period) (buffer : List (Option α))
+    (hb : 1 ≤ buffer.length) (h : List (Int × Option α)) (fill : Option α) (start end_ : Int) :
+    let s := run c (State.init buffer) h
+    let sp := Spec.run c buffer.length h
+    ∀ n k, sp.newest = some n → sp.IsOldestValid k →
+      (n < normSlot c start ∨ normSlot c end_ ≤ k ∨ normSlot c end_ ≤ normSlot c start) →
+      windowTs c s start end_ (some fill) = [] := by
+  intro s sp n k hn hk hout
+  have e := (C09_window_unaligned c hp buffer hb h fill start end_).2.1 n k hn hk
+  rw [e]
+  unfold Spec.window
+  have : (min (normSlot c end_) (n + 1) - max (normSlot c start) k).toNat = 0 := by omega
+  rw [this]; rfl
+
+/-- `window(start, end)` never raises `IndexError` for two datetimes, wherever they lie relative to the stored span
+(entirely after the newest slot, entirely before the oldest, straddling, any distance away, aligned or not): the
+range test of `to_internal_index` (the translated `tiiOutside`) cannot fire on the clamped bounds. -/
+theorem C09_window_never_raises {α : Type} (c : Cfg) (hp : 0 < c.period) (buffer : List (Option α))
+    (hb : 1 ≤ buffer.length) (h : List (Int × Option α)) (start end_ : Int) :
+    windowTsRaises c (run c (State.init buffer) h) start end_ = false := by
+  obtain ⟨hI, _, _⟩ := run_refines c (State.init buffer) (Inv.init buffer hb) Spec.init (abs_init buffer) h
+  exact windowTs_never_raises c hp _ hI start end_
+
 /-! ### `MovingWindow.at` / `MovingWindow[...]` -/
 
 /-- `at(i)` raises IndexError when nothing valid is stored or `i ∉ [-count_covered, count_covered)`, otherwise it
@@ -329,6 +355,18 @@ example :
       (run { align := 0, period := 1000000 } (State.init [none, none, none, none, (none : Option Nat)])
         [(0, some 10), (1000000, some 11), (2000000, some 12), (3000000, some 13), (4000000, some 14)])
       1100000 1300000 (some none) = [] := by decide
+
+/-- Seeded C09-r2-3: with slots 2..6 stored, `window(7 s, 8 s)` (entirely after the newest slot) is empty and
+`window(8 s, 9 s)` neither raises nor returns anything; a window straddling the newest end is cut there. -/
+example :
+    let c : Cfg := { align := 0, period := 1000000 }
+    let s := run c (State.init [none, none, none, none, (none : Option Nat)])
+      [(0, some 10), (1000000, some 11), (2000000, some 12), (3000000, some 13), (4000000, some 14),
+       (5000000, some 15), (6000000, some 16)]
+    windowTs c s 7000000 8000000 (some none) = [] ∧ windowTs c s 6700000 8200000 (some none) = []
+    ∧ windowTs c s 8000000 9000000 (some none) = [] ∧ windowTsRaises c s 8000000 9000000 = false
+    ∧ windowTs c s 0 1000000 (some none) = [] ∧ windowTs c s 5000000 9000000 (some none) = [some 15, some 16] := by
+  decide
 
 /-- DESIGN §5 #6: with a gap at 2 s, `window(0.4 s, 4.4 s) = [10, 11, nan, 13]` (pinned: `[10, nan, nan, 13]`). -/
 example :
